@@ -16,6 +16,7 @@ import (
 	"bytes"
 	"encoding/binary"
 	"fmt"
+	"runtime"
 	"sort"
 	"testing"
 
@@ -472,5 +473,66 @@ func TestVerifC17(t *testing.T) {
 		if gi.services > 0 {
 			h.Distinct("node", root[:])
 		}
+	}
+}
+
+// ---- parallel export (race build) ---------------------------------------------------------------------------------
+//
+// StateEncoder encodes the service accounts in a worker pool (types.MaxWorkers) and collects the results under a mutex. The
+// export of one state must be the same key->value set whatever the pool size and the goroutine scheduling; the race
+// detector watches the pool while states with many services are exported.
+func TestVerifC17Par(t *testing.T) {
+	h := vh.Open(t, "C17")
+	defer h.Done()
+	types.SetTinyMode()
+	defW := types.MaxWorkers
+	defer func() { types.MaxWorkers = defW }()
+	n := h.N(120, 1200)
+	for ci := 0; ci < n; ci++ {
+		if !h.Mine("par", ci) {
+			continue
+		}
+		r := h.Rng("par", ci)
+		S, gi := genState(r, h)
+		for k, want := 0, 8+r.IntN(40); len(S.Delta) < want && k < 40; k++ { // many services: merge several generated sets
+			S2, g2 := genState(r, h)
+			for id, a := range S2.Delta {
+				if _, ok := S.Delta[id]; !ok {
+					S.Delta[id] = a
+				}
+			}
+			gi.storage += g2.storage
+		}
+		gi.services = len(S.Delta)
+		d := describe(S, gi)
+		h.Case("par", ci, "", d)
+		types.MaxWorkers = 1
+		ref, err := m.StateEncoder(S)
+		if err != nil {
+			d["err"] = err.Error()
+			h.Viol("par", ci, "", "export fails on a well-formed state", d)
+			continue
+		}
+		refMap, _ := toMap(ref)
+		for k, w := range []int{2, 3, 8, 64, 2, 64} {
+			types.MaxWorkers = w
+			old := runtime.GOMAXPROCS([]int{16, 4, 2}[k%3])
+			got, err := m.StateEncoder(S)
+			runtime.GOMAXPROCS(old)
+			if err != nil {
+				d["err"], d["max_workers"] = err.Error(), w
+				h.Viol("par", ci, "", "export fails with another worker limit", d)
+				break
+			}
+			gm, dup := toMap(got)
+			if diff := diffMaps(refMap, gm); diff != "[]" || dup > 0 || len(got) != len(ref) {
+				d["difference"], d["max_workers"], d["duplicates"] = diff, w, dup
+				h.Viol("par", ci, "", "the export of one state depends on the worker limit / scheduling", d)
+				break
+			}
+			h.Inc("parallel_exports_compared")
+		}
+		h.Count("services_exported_in_parallel", int64(len(S.Delta)))
+		h.Distinct(len(S.Delta), len(ref))
 	}
 }
